@@ -46,7 +46,31 @@
 (*     alone - the relocated buffer / the refusal of the apply machine for   *)
 (*     TRUE, the original bytes for FALSE - whatever was asked before, and   *)
 (*     an answer handed out earlier keeps its bytes.                         *)
-(* TLC checks on the specification itself: LoadsHistoryFree,                *)
+(* (E) section addresses (mode "secaddr"): ET_REL images whose relocations   *)
+(*     go against symbols DEFINED IN SECTIONS (.text, .data) that carry      *)
+(*     addresses 0 / small / high bit set.  gABI "Symbol Values": in a       *)
+(*     relocatable file st_value is an offset into the section st_shndx      *)
+(*     names; S is "the value of the symbol": sh_addr is no part of it.      *)
+(*     The apply machine reads no address (SectionAddressesIrrelevant).      *)
+(* (E') stacked relocations (mode "stack"): 2-3 records with one r_offset    *)
+(*     and one width, of the types that read the field (REL S+A / S+A-P,     *)
+(*     LoongArch ADDn / SUBn), in table order: each step reads what the      *)
+(*     step before left (gABI: consecutive records on one location are       *)
+(*     composed, the addend of the next is the retained result; LoongArch:   *)
+(*     "the intN_t at PC += S + A").  StackIsSum: the field ends up as the    *)
+(*     in-place value + the sum of the terms; StackOrderIrrelevant.          *)
+(* (F) the session machine (mode "sess"): ONE table object (SHT_RELR         *)
+(*     section, .rel/.rela section, a table named by the dynamic tags via    *)
+(*     the section or the segment) receives every call sequence up to a      *)
+(*     small depth over {abandon an iterator after k items, num, get(i),     *)
+(*     full iteration, next item of a held iterator} (action ClientCall);    *)
+(*     the answer is computed by the reader (a RELR iterator = the RELR      *)
+(*     machine stepped only as far as asked) and SessionHistoryFree shows    *)
+(*     it to be the declarative answer (a function of the table's            *)
+(*     denotation and the call alone), whatever was called before.           *)
+(* TLC checks on the specification itself: SectionAddressesIrrelevant,      *)
+(* SecAddrWellFormed, StackIsSum, StackOrderIrrelevant, SessionHistoryFree, *)
+(* SessWellFormed, LoadsHistoryFree,                                        *)
 (* LoadsDiscriminate (the two flags have different answers on every loads   *)
 (* object, so a sticky flag is visible), DecodeRoundTrip (reader o writer *)
 (* = identity, entry count = size / entsize), RelrMachineIsDenotation,      *)
@@ -84,8 +108,13 @@
 (*     STT_NOTYPE, so S = st_value;                                        *)
 (*   R_*_NONE placed so that fewer than 8 bytes follow r_offset (the        *)
 (*     supplements give it no field; the library reads one and raises);     *)
+(*   RELA records of S+A types stacked on one field (gABI composition and   *)
+(*     plain overwriting differ; the supplements are silent); stacked       *)
+(*     records of different widths or overlapping at different offsets      *)
+(*     (the order of application is then significant and nowhere fixed);    *)
 (*   fields that leave the section, RELR streams starting with a bitmap or  *)
-(*     denoting addresses beyond the address space, sh_addr # 0, several    *)
+(*     denoting addresses beyond the address space, sh_addr # 0 of the      *)
+(*     RELOCATED section (P of the PC-relative types), several              *)
 (*     sections of one name (which .rel.debug_info belongs to which         *)
 (*     .debug_info is then sh_info's business; images have unique names).   *)
 (***************************************************************************)
@@ -155,10 +184,11 @@ TableBytes(o) ==
   LET F == RelLayout(o.cls, o.machine, o.rela) IN
   Flat([j \in 1..Len(o.relocs) |-> Ser(F, EntryRec(o.cls, o.machine, o.relocs[j]), o.cls, o.le)])
 
-\* symbols: index 0 is the null symbol; the others are absolute (SHN_ABS = 0xfff1), STT_NOTYPE, STB_LOCAL
-SymRec(i, v) == [st_name |-> Z, st_value |-> W(v), st_size |-> Z, st_info |-> Z, st_other |-> Z,
-                 st_shndx |-> N(IF i = 1 THEN 0 ELSE 65521)]
-SymBytes(o) == Flat([i \in 1..Len(o.syms) |-> Ser(SymF(o.cls), SymRec(i, o.syms[i]), o.cls, o.le)])
+\* symbols: index 0 is the null symbol; the others are STT_NOTYPE, STB_LOCAL and absolute (SHN_ABS = 0xfff1) unless the object
+\* says in which section each one is defined (o.shndx, mode "secaddr": st_value is then an offset into that section)
+SymRec(i, v, shndx) == [st_name |-> Z, st_value |-> W(v), st_size |-> Z, st_info |-> Z, st_other |-> Z, st_shndx |-> N(shndx)]
+ShndxOf(o, i) == IF "shndx" \in DOMAIN o THEN o.shndx[i] ELSE IF i = 1 THEN 0 ELSE 65521
+SymBytes(o) == Flat([i \in 1..Len(o.syms) |-> Ser(SymF(o.cls), SymRec(i, o.syms[i], ShndxOf(o, i)), o.cls, o.le)])
 
 DotDebugInfo == <<46, 100, 101, 98, 117, 103, 95, 105, 110, 102, 111>>
 DotRel == <<46, 114, 101, 108>>
@@ -191,6 +221,17 @@ TwoImage(a, b) ==
         !.secs = << Sec(DotDebugInfo, N(1), Z, Z, a.data, N(Len(a.data)), Z, Z, N(1), Z), rsec(a, DotDebugInfo, 5, 1),
                     Sec(DotDebugLine, N(1), Z, Z, b.data, N(Len(b.data)), Z, Z, N(1), Z), rsec(b, DotDebugLine, 6, 3),
                     ssec(a), ssec(b), Sec(DotStrtab, N(3), Z, Z, <<0>>, N(1), Z, Z, N(1), Z) >>]
+
+\* (E) ET_REL image whose symbols are defined in sections that carry addresses: RelocImage + 5 .text (sh_addr o.addrs[1]) + 6 .data
+\* (sh_addr o.addrs[2]).  gABI ch.4 "Symbol Values": "In relocatable files, st_value holds a section offset for a defined symbol.
+\* st_value is an offset from the beginning of the section that st_shndx identifies"; "Relocation": S "means the value of the symbol
+\* whose index resides in the relocation entry".  sh_addr ("the address at which the section's first byte should reside" in a memory
+\* image) is not part of the value of a symbol of a relocatable file: nothing in Apply reads o.addrs (SectionAddressesIrrelevant).
+DotText == <<46, 116, 101, 120, 116>>
+DotData == <<46, 100, 97, 116, 97>>
+SaImage(o) ==
+  [RelocImage(o) EXCEPT !.secs = @ \o << Sec(DotText, N(1), N(6), W(o.addrs[1]), Rep(144, 16), N(16), Z, Z, N(16), Z),
+                                         Sec(DotData, N(1), N(3), W(o.addrs[2]), Rep(144, 16), N(16), Z, Z, N(16), Z) >>]
 
 (* ------------------------- (A) tables: reader -------------------------- *)
 RECURSIVE FieldOff(_, _, _)
@@ -501,6 +542,60 @@ MaxCalls == 3
 \* the answer to get_dwarf_info(relocate_dwarf_sections = flag): a function of the object and the flag
 LoadAnswer(o, flag) == IF flag THEN Apply(o) ELSE [buf |-> o.data, err |-> ""]
 
+\* secaddr: the small relocated section of the loads mode with four relocations (aligned, odd, middle and last offset) whose symbols
+\* 2, 3, 4, 6 are defined in .text (section 5), .data (6), nowhere (SHN_ABS) and .data; the two defining sections get the address pairs
+\* SecAddrPairs over SecAddrs (0, a small one, one with the high bit of the class set; both with a non-zero low byte: visible in 1-byte fields)
+SaLen == 40
+SaShndx == <<0, 65521, 5, 6, 65521, 5, 6>>
+SecAddrs(cls) == IF cls = 32 THEN <<<<0, 0, 0, 0>>, <<16, 16, 0, 0>>, <<16, 0, 16, 128>>>>
+                 ELSE <<DZero(8), <<16, 16, 0, 0, 0, 0, 0, 0>>, <<16, 0, 16, 0, 0, 0, 0, 128>>>>
+\* <<address of .text, address of .data>>: both 0 (what assemblers write), one of them not 0, both not 0 and different
+SecAddrPairs(cls) == LET a == SecAddrs(cls) IN {<<a[1], a[1]>>, <<a[2], a[1]>>, <<a[1], a[3]>>, <<a[2], a[3]>>, <<a[3], a[2]>>}
+SaObj(row, fl, cls, le, a5, a6) ==
+  LET ws == Wsz(cls)
+      add(k) == IF fl = "RELA" THEN DTrunc(ValuePool[k], ws) ELSE DZero(ws)
+  IN [cls |-> cls, le |-> le, machine |-> row.m, rela |-> fl = "RELA", data |-> Filler(SaLen), syms |-> Syms(cls), sub |-> row.name,
+      shndx |-> SaShndx, addrs |-> <<a5, a6>>,
+      relocs |-> <<Entry(LEn(4, ws), LEn(2, 4), Type4(row.t), add(2), 0, 0, 0),
+                   Entry(LEn(13, ws), LEn(3, 4), Type4(row.t), add(7), 0, 0, 0),
+                   Entry(LEn(22, ws), LEn(4, 4), Type4(row.t), add(6), 0, 0, 0),
+                   Entry(LEn(SaLen - row.w, ws), LEn(6, 4), Type4(row.t), add(3), 0, 0, 0)>>]
+SaPlans ==
+  UNION {UNION {{SaObj(r, fl, cls, le, a[1], a[2]) : le \in BOOLEAN, fl \in {x \in r.fl : Recipe(r.m, r.t, x).kind = "ok"},
+                                                     a \in SecAddrPairs(cls)} : cls \in ClassesOf(r.m)} :
+           r \in {x \in Rows : x.w > 0}}
+\* the class of an address (for tags)
+AddrClass(a) == IF a = DZero(Len(a)) THEN "0" ELSE IF a[Len(a)] >= 128 THEN "high" ELSE "small"
+
+\* stack: two or three relocations on ONE field (identical r_offset, identical width), applied in table order, then one ordinary
+\* relocation elsewhere.  Only types whose calculation reads the field: the REL flavour of S+A / S+A-P (gABI: "entries of type Rel store
+\* an implicit addend in the location to be modified"; consecutive records with one r_offset are composed - "the addend used is the
+\* retained result of the previous relocation operation" - which for REL records of one width is what the second reads from the field)
+\* and the LoongArch ADDn / SUBn ("*(intN_t *) PC += S + A" / "-= S + A": a read-modify-write of the place).  Every such step adds a
+\* constant to the field modulo 2^(8w), so the result is the in-place value plus the sum of the terms (StackIsSum) in whatever order
+\* (StackOrderIrrelevant).  RELA records of S+A types on one field are NOT generated: gABI composition (addend := retained result)
+\* and plain overwriting differ there and the processor supplements are silent.
+ReadsField(r, fl) == r.f \in {"V+S+A", "V-S-A"} \/ (fl = "REL" /\ r.f \in {"S+A", "S+A-P"})
+StackRows(m, fl, w) == {r \in Rows : r.m = m /\ fl \in r.fl /\ r.w = w /\ ReadsField(r, fl) /\ Recipe(m, r.t, fl).kind = "ok"}
+StackSeqs(m, fl, w) == LET R == StackRows(m, fl, w) IN {<<a, b>> : a \in R, b \in R} \cup {<<a, b, c>> : a \in R, b \in R, c \in R}
+StackOff == 5
+StackLen == 24
+StackSym == <<2, 6, 3>>
+StackAdd == <<7, 2, 6>>
+StackObj(rs, fl, cls, le, vi) ==
+  LET ws == Wsz(cls)
+      w == rs[1].w
+      add(k) == IF fl = "RELA" THEN DTrunc(ValuePool[k], ws) ELSE DZero(ws)
+  IN [cls |-> cls, le |-> le, machine |-> rs[1].m, rela |-> fl = "RELA", syms |-> Syms(cls),
+      data |-> Patch(Filler(StackLen), StackOff, Fix(W(ValuePool[vi]), w, le)),
+      sub |-> IF Len(rs) = 2 THEN rs[1].name \o "+" \o rs[2].name ELSE rs[1].name \o "+" \o rs[2].name \o "+" \o rs[3].name,
+      group |-> Len(rs),
+      relocs |-> [j \in 1..Len(rs) |-> Entry(LEn(StackOff, ws), LEn(StackSym[j], 4), Type4(rs[j].t), add(StackAdd[j]), 0, 0, 0)]
+                 \o <<Entry(LEn(StackLen - w, ws), LEn(4, 4), Type4(rs[1].t), add(3), 0, 0, 0)>>]
+StackPlans ==
+  UNION {UNION {UNION {{StackObj(rs, fl, cls, le, vi) : rs \in StackSeqs(m, fl, w), le \in BOOLEAN, vi \in {4, 7}} :
+                         w \in {1, 2, 4, 8}} : cls \in ClassesOf(m)} : m \in Machines, fl \in {"REL", "RELA"}}
+
 \* decode alphabets (one entry = one choice of every field; extremes and asymmetric patterns)
 Pool32 == << Entry(<<0, 0, 0, 0>>, <<0, 0, 0, 0>>, <<0, 0, 0, 0>>, <<0, 0, 0, 0>>, 0, 0, 0),
              Entry(<<1, 0, 0, 128>>, <<86, 52, 18, 0>>, <<120, 0, 0, 0>>, <<255, 255, 255, 255>>, 0, 0, 0),
@@ -535,6 +630,88 @@ RelrBitPos(cls) == IF cls = 32 THEN {1, 2, 15, 16, 30, 31} ELSE {1, 2, 31, 32, 6
 RelrBitmaps(cls) == {WordOfBits(S \cup {0}, Wsz(cls)) : S \in {T \in SUBSET RelrBitPos(cls) : Cardinality(T) <= BitmapBits}}
 RelrOrigins(cls) == IF cls = 32 THEN {<<0, 0, 1, 0>>, <<0, 255, 255, 127>>} ELSE {<<0, 0, 1, 0, 0, 0, 0, 0>>, <<0, 255, 255, 255, 0, 0, 0, 0>>, <<0, 0, 0, 0, 0, 0, 0, 128>>}
 
+(* ------------------ (F) client sessions on one table ------------------ *)
+\* A session object names ONE table of an image: kind "relrsec" (the SHT_RELR section of RelrImage), "relsec" (the .rel[a].debug_info
+\* section of RelocImage) or "dyn" (table `tab` of DynImage, obtained through `via`: the .dynamic section or the PT_DYNAMIC segment).
+\* s = [kind, tab, via, v, cls, le, machine, o]; o is the object of the image's writer.
+SessIsRelr(s) == s.tab = "RELR"
+SessRela(s) == CASE s.kind = "relsec" -> s.o.rela [] s.tab = "RELA" -> TRUE [] s.tab = "JMPREL" -> s.o.pltrela [] OTHER -> FALSE
+SessEntries(s) == CASE s.kind = "relsec" -> s.o.relocs [] s.tab = "REL" -> s.o.rel [] s.tab = "RELA" -> s.o.rela
+                    [] s.tab = "JMPREL" -> s.o.jmprel [] OTHER -> <<>>
+SessBytes(s) == TableBytes([cls |-> s.cls, le |-> s.le, machine |-> s.machine, rela |-> SessRela(s), relocs |-> SessEntries(s)])
+SessImage(s) == CASE s.kind = "relrsec" -> RelrImage(s.o) [] s.kind = "relsec" -> RelocImage(s.o) [] OTHER -> DynImage(s.o)
+\* declarative: the sequence the table denotes (addresses / entry views), from the abstract object
+SessView(s) ==
+  IF SessIsRelr(s) THEN RelrDenote(s.o.words, Wsz(s.cls))
+  ELSE LET es == SessEntries(s) IN
+       [j \in 1..Len(es) |-> EntryView(s.cls, s.machine, [es[j] EXCEPT !.add = IF SessRela(s) THEN @ ELSE DZero(Wsz(s.cls))])]
+\* operational: what a reader does for one request.  Item n (1-based) of a REL/RELA table is read at n * entsize; a RELR reader is
+\* the RELR machine started afresh and stepped until it has produced n addresses (an iterator that is asked for n items does no more).
+RECURSIVE RelrTake(_, _, _, _)
+RelrTake(m, words, ws, n) ==
+  IF Len(m.out) >= n \/ m.i > Len(words) THEN m
+  ELSE RelrTake(IF Even(words[m.i]) THEN AnchorStep(m, words[m.i], ws) ELSE BitmapStep(m, words[m.i], ws), words, ws, n)
+\* (s.tb = SessBytes(s), the table as it is in the file, and s.n = Len(SessView(s)) are computed once, when the object is made)
+OpCount(s) == IF SessIsRelr(s) THEN Len(RelrRun(RelrInit, s.o.words, Wsz(s.cls)).out) ELSE NumEntries(s.tb, s.cls, SessRela(s))
+OpItem(s, n) == IF SessIsRelr(s) THEN RelrTake(RelrInit, s.o.words, Wsz(s.cls), n).out[n]
+                ELSE EntryView(s.cls, s.machine, ReadEntry(s.tb, n - 1, s.cls, s.le, s.machine, SessRela(s)))
+OpItems(s, lo, hi) == [x \in 1..(hi - lo + 1) |-> OpItem(s, lo + x - 1)]
+\* the client's alphabet: <<call, argument>>.  "abandon" k: a new iterator, k items taken, then dropped; "num": num_relocations;
+\* "get" i: get_relocation(i); "full": a new iterator run to its end; "next": one more item of the ONE iterator the client holds
+\* through the whole session (opened by the first "next"; st.k = items it has handed out; nothing once it is exhausted).
+SessCalls(s) == LET n == s.n IN
+  {<<"abandon", 1>>, <<"abandon", 2>>, <<"num", 0>>, <<"get", 0>>, <<"get", n - 1>>, <<"full", 0>>, <<"next", 0>>}
+\* an answer: [n: the number answered by "num" (0 otherwise), items: the items handed out]
+OpAnswer(s, c, pos) ==
+  LET n == OpCount(s) IN
+  CASE c[1] = "abandon" -> [n |-> 0, items |-> OpItems(s, 1, Min({c[2], n}))]
+    [] c[1] = "num" -> [n |-> n, items |-> <<>>]
+    [] c[1] = "get" -> [n |-> 0, items |-> OpItems(s, c[2] + 1, c[2] + 1)]
+    [] c[1] = "full" -> [n |-> 0, items |-> OpItems(s, 1, n)]
+    [] c[1] = "next" -> [n |-> 0, items |-> IF pos < n THEN OpItems(s, pos + 1, pos + 1) ELSE <<>>]
+\* the declarative answer: a function of the table's denotation and the call alone (for "next": and of how many items the held
+\* iterator itself has handed out) - never of the other calls of the session
+SessAnswer(s, c, pos) ==
+  LET v == SessView(s)
+      n == Len(v)
+  IN CASE c[1] = "abandon" -> [n |-> 0, items |-> SubSeq(v, 1, Min({c[2], n}))]
+       [] c[1] = "num" -> [n |-> n, items |-> <<>>]
+       [] c[1] = "get" -> [n |-> 0, items |-> <<v[c[2] + 1]>>]
+       [] c[1] = "full" -> [n |-> 0, items |-> v]
+       [] c[1] = "next" -> [n |-> 0, items |-> IF pos < n THEN <<v[pos + 1]>> ELSE <<>>]
+\* session lengths (definitions a cfg may replace): RELR tables keep a memo of the expansion, so the RELR sections get the longer
+\* sessions (a DT_RELR table is the same reader over the same words)
+SessDepthRelr == 3
+SessDepthTab == 2
+SessDepthRelrThorough == 4
+SessDepthTabThorough == 3
+SessDepth(s) == IF s.kind = "relrsec" THEN SessDepthRelr ELSE SessDepthTab
+\* the session objects
+SessDynObj(cf, pltrela) ==
+  LET P == DecodePool(cf[1], cf[3])
+      a == AscDigits(RelrAnchors(cf[1]))
+  IN [cls |-> cf[1], le |-> cf[2], machine |-> cf[3], present |-> {"REL", "RELA", "JMPREL", "RELR"}, pltrela |-> pltrela,
+      rel |-> <<P[2], P[5], P[3]>>, rela |-> <<P[3], P[2], P[4]>>, jmprel |-> <<P[5], P[6], P[2]>>,
+      words |-> <<a[1], WordOfBits({0, 1, 8 * Wsz(cf[1]) - 2}, Wsz(cf[1])), a[2]>>]
+SessObj(kind, tab, via, v, o) ==
+  LET s == [kind |-> kind, tab |-> tab, via |-> via, v |-> v, cls |-> o.cls, le |-> o.le, machine |-> o.machine, o |-> o]
+  IN s @@ [tb |-> TLCEval(SessBytes(s)), n |-> Len(SessView(s))]
+SessPlans ==
+  \* SHT_RELR sections: anchor + bitmap (first and last bit) + anchor (4 addresses), and a single anchor (an iterator that runs dry)
+  UNION {{SessObj("relrsec", "RELR", "name", v,
+                  [cls |-> cls, le |-> le, machine |-> IF cls = 32 THEN EM_ARM ELSE EM_X86_64,
+                   words |-> LET a == AscDigits(RelrAnchors(cls)) IN
+                             IF v = 1 THEN <<a[1], WordOfBits({0, 1, 8 * Wsz(cls) - 2}, Wsz(cls)), a[2]>> ELSE <<a[1]>>]) :
+            le \in BOOLEAN, v \in 1..2} : cls \in {32, 64}}
+  \* REL / RELA sections of three entries
+  \cup {SessObj("relsec", "SEC", "name", 1,
+                 LET P == DecodePool(cf[1], cf[3]) IN
+                 [cls |-> cf[1], le |-> cf[2], machine |-> cf[3], rela |-> rela, data |-> Filler(8), syms |-> Syms(cf[1]),
+                  relocs |-> <<P[2], P[6], P[4]>>, sub |-> "sess"]) : cf \in DecodeConfigs, rela \in BOOLEAN}
+  \* the four tables the dynamic tags name, through the section and through the segment
+  \cup {SessObj("dyn", tab, via, 1, SessDynObj(cf, cf[2])) :
+          cf \in DecodeConfigs, tab \in {"REL", "RELA", "JMPREL", "RELR"}, via \in {"section", "segment"}}
+
 (* ------------------------------- machine ------------------------------- *)
 Idle == RelrInit
 Init ==
@@ -553,6 +730,11 @@ Init ==
             \E o \in ErrPlans : obj = o /\ phase = "read" /\ st = [Idle EXCEPT !.buf = o.data, !.k = 1]
        [] Mode = "loads" ->
             \E o \in LoadPlans : obj = o /\ phase = "read" /\ st = [Idle EXCEPT !.buf = o.data, !.k = 1]
+       [] Mode = "secaddr" ->
+            \E o \in SaPlans : obj = o /\ phase = "read" /\ st = [Idle EXCEPT !.buf = o.data, !.k = 1]
+       [] Mode = "stack" ->
+            \E o \in StackPlans : obj = o /\ phase = "read" /\ st = [Idle EXCEPT !.buf = o.data, !.k = 1]
+       [] Mode = "sess" -> \E o \in SessPlans : obj = o /\ phase = "calls" /\ st = Idle
        [] Mode = "relr" ->
             \E cls \in {32, 64}, le \in BOOLEAN : \E a \in {AscDigits(RelrAnchors(cls))[x] : x \in 1..FirstAnchors} :
                /\ obj = [cls |-> cls, le |-> le, machine |-> IF cls = 32 THEN EM_ARM ELSE EM_X86_64, words |-> <<a>>,
@@ -609,11 +791,11 @@ RelrHalt ==
 
 \* --- the apply loop
 ApplyOne ==
-  /\ Mode \in {"apply", "errors", "loads"} /\ phase = "read" /\ st.err = "" /\ st.k <= Len(obj.relocs)
+  /\ Mode \in {"apply", "errors", "loads", "secaddr", "stack"} /\ phase = "read" /\ st.err = "" /\ st.k <= Len(obj.relocs)
   /\ LET r == ApplyStep(obj, st.buf, 0, obj.relocs[st.k]) IN st' = [st EXCEPT !.buf = r.buf, !.err = r.err, !.k = @ + 1]
   /\ UNCHANGED <<Mode, obj, phase>>
 ApplyHalt ==
-  /\ Mode \in {"apply", "errors", "loads"} /\ phase = "read" /\ ~(st.err = "" /\ st.k <= Len(obj.relocs))
+  /\ Mode \in {"apply", "errors", "loads", "secaddr", "stack"} /\ phase = "read" /\ ~(st.err = "" /\ st.k <= Len(obj.relocs))
   /\ phase' = IF Mode = "loads" THEN "calls" ELSE "done"
   /\ UNCHANGED <<Mode, obj, st>>
 \* --- the load machine: one more request on the same opened file; st.out = the answers handed out so far.  A relocating
@@ -623,11 +805,21 @@ Load(flag) ==
   /\ st' = [st EXCEPT !.out = Append(@, [flag |-> flag, buf |-> IF flag THEN st.buf ELSE obj.data, err |-> IF flag THEN st.err ELSE ""])]
   /\ UNCHANGED <<Mode, obj, phase>>
 
-Next == AddEntry \/ AddWord \/ Finish \/ Anchor \/ Bitmap \/ RelrHalt \/ ApplyOne \/ ApplyHalt \/ \E flag \in BOOLEAN : Load(flag)
+\* --- the session machine: one more call on the same table object; st.out = the calls so far with their answers, st.k = the items the
+\* held iterator has handed out.  Each answer is computed by the reader (OpAnswer) from the table's bytes.
+ClientCall(c) ==
+  /\ Mode = "sess" /\ phase = "calls" /\ Len(st.out) < SessDepth(obj)
+  /\ LET a == OpAnswer(obj, c, st.k) IN
+     st' = [st EXCEPT !.out = Append(@, [c |-> c[1], a |-> c[2], n |-> a.n, items |-> TLCEval(a.items)]),
+                      !.k = IF c[1] = "next" /\ a.items # <<>> THEN @ + 1 ELSE @]
+  /\ UNCHANGED <<Mode, obj, phase>>
+
+Next == AddEntry \/ AddWord \/ Finish \/ Anchor \/ Bitmap \/ RelrHalt \/ ApplyOne \/ ApplyHalt \/ (\E flag \in BOOLEAN : Load(flag))
+        \/ (Mode = "sess" /\ \E c \in SessCalls(obj) : ClientCall(c))
 Spec == Init /\ [][Next]_vars
 
 (* ------------------------------ emission ------------------------------- *)
-IsTable == Mode \in {"decode", "apply", "errors"}
+IsTable == Mode \in {"decode", "apply", "errors", "secaddr", "stack"}
 \* per relocation: <<offset, width, class>>; class names the input class a deviation would be filed under
 FieldClass(o, j) ==
   LET e == o.relocs[j]
@@ -637,7 +829,7 @@ FieldClass(o, j) ==
   IN IF f[2] > 0 /\ o.rela /\ rc.f \in {"S+A", "S+A-P"} /\ raw # DZero(f[2]) THEN "inplace-nonzero" ELSE "plain"
 TableCase ==
   [mode |-> Mode, sub |-> obj.sub, cls |-> obj.cls, le |-> obj.le, machine |-> obj.machine, rela |-> obj.rela,
-   chunks |-> Chunks(RelocImage(obj)), entries |-> TableView(obj), nsyms |-> Len(obj.syms),
+   chunks |-> Chunks(IF Mode = "secaddr" THEN SaImage(obj) ELSE RelocImage(obj)), entries |-> TableView(obj), nsyms |-> Len(obj.syms),
    orig |-> obj.data, err |-> st.err, bytes |-> st.buf,
    fields |-> IF Mode = "decode" THEN <<>>
               ELSE [j \in 1..Len(obj.relocs) |-> LET f == TLCEval(FieldOf(obj, j)) IN <<f[1], f[2], FieldClass(obj, j)>>]]
@@ -672,8 +864,25 @@ LoadsCase ==
    chunks |-> Chunks(RelocImage(obj)), orig |-> obj.data, bytes |-> st.buf, err |-> st.err,
    calls |-> [i \in 1..Len(st.out) |-> <<st.out[i].flag, st.out[i].err,
                                           IF st.out[i].err # "" THEN "none" ELSE IF st.out[i].buf = obj.data THEN "orig" ELSE "bytes">>]]
+\* secaddr: a table case and, per relocation, where its symbol is defined: <<st_shndx, class of that section's address ("" if none)>>
+SaCase == TableCase @@
+          [addrs |-> <<AddrClass(obj.addrs[1]), AddrClass(obj.addrs[2])>>,
+           defs |-> [j \in 1..Len(obj.relocs) |->
+                       LET sh == obj.shndx[NatOf(obj.relocs[j].sym) + 1] IN
+                       <<sh, IF sh \in {5, 6} THEN AddrClass(obj.addrs[sh - 4]) ELSE "">>]]
+\* sess: the object (image, which table, its denotation) once, at the start of its sessions; then one line per complete session
+SessId == ToString(<<obj.kind, obj.tab, obj.via, obj.v, obj.cls, obj.le, obj.machine, SessRela(obj)>>)
+SessObjCase == [mode |-> Mode, part |-> "obj", id |-> SessId, kind |-> obj.kind, tab |-> obj.tab, via |-> obj.via, cls |-> obj.cls,
+                le |-> obj.le, machine |-> obj.machine, rela |-> SessRela(obj), chunks |-> Chunks(SessImage(obj)), view |-> SessView(obj)]
+SessCallsCase == [mode |-> Mode, part |-> "calls", id |-> SessId,
+                  calls |-> [i \in 1..Len(st.out) |-> <<st.out[i].c, st.out[i].a, st.out[i].n, st.out[i].items>>]]
+EmitSess == /\ (st.out = <<>>) => Put(SessObjCase)
+            /\ (Len(st.out) = SessDepth(obj)) => Put(SessCallsCase)
 \* (of the sequences of three calls only the alternating ones TFT / FTF add something to the four of two calls)
-Emit == IF Mode = "loads" THEN (phase = "calls" /\ Len(st.out) >= 2
+Emit == IF Mode = "sess" THEN EmitSess ELSE
+        IF Mode = "secaddr" THEN (phase = "done" => Put(SaCase)) ELSE
+        IF Mode = "stack" THEN (phase = "done" => Put(TableCase @@ [group |-> obj.group])) ELSE
+        IF Mode = "loads" THEN (phase = "calls" /\ Len(st.out) >= 2
                                 /\ (Len(st.out) = 3 => (st.out[1].flag # st.out[2].flag /\ st.out[2].flag # st.out[3].flag))) => Put(LoadsCase)
         ELSE phase = "done" => IF Mode = "apply" THEN EmitParts ELSE IF Mode = "twotabs" THEN Put(TwoCase)
                                ELSE Put(IF IsTable THEN TableCase ELSE IF Mode = "dyn" THEN DynCase ELSE RelrCase)
@@ -691,6 +900,65 @@ LoadsHistoryFree ==
 \* the two flags have different answers on every loads object (a refusal, or relocated bytes that differ from the original ones)
 LoadsDiscriminate ==
   (Mode = "loads" /\ phase = "calls") => LET a == Apply(obj) IN a.err # "" \/ a.buf # obj.data
+\* S is independent of section addresses in ET_REL (and of where a symbol is defined): the outcome on a secaddr object is the
+\* outcome on the same object with every section at address 0, and on the same object with every symbol absolute
+SectionAddressesIrrelevant ==
+  (Mode = "secaddr" /\ Done) =>
+     LET r == [buf |-> st.buf, err |-> st.err]
+         z == DZero(Wsz(obj.cls))
+     IN /\ r = Apply([obj EXCEPT !.addrs = <<z, z>>])
+        /\ r = Apply([obj EXCEPT !.shndx = [i \in 1..Len(obj.syms) |-> IF i = 1 THEN 0 ELSE 65521]])
+        /\ r.err = ""
+\* ... the secaddr images are well-formed, every st_shndx names a section of the image (or SHN_UNDEF / SHN_ABS), and an address that
+\* is not 0 would show if it were added to S: some relocation against a symbol of that section has a field in which it is not 0
+SecAddrWellFormed ==
+  Mode = "secaddr" =>
+     LET im == SaImage(obj) IN
+     /\ ChunksDisjoint(im)
+     /\ \A i \in 1..Len(obj.syms) : obj.shndx[i] \in {0, 65521} \cup 1..Len(im.secs)
+     /\ \A k \in 1..2 : obj.addrs[k] # DZero(Wsz(obj.cls)) =>
+           \E j \in 1..Len(obj.relocs) : /\ obj.shndx[NatOf(obj.relocs[j].sym) + 1] = k + 4
+                                           /\ LET w == FieldOf(obj, j)[2] IN w > 0 /\ DTrunc(obj.addrs[k], w) # DZero(w)
+\* relocations that share a field: the machine's fold leaves in the field the in-place value plus the sum of the steps' terms
+\* (+(S + A), -(S + A), +(S + A - P); A = r_addend in a RELA table, nothing more in a REL table: the in-place value is counted once) ...
+StackTerm(o, j) ==
+  LET e == o.relocs[j]
+      rc == Recipe(o.machine, NatOf(e.type), FlavourOf(o))
+      SA == DAdd(DTrunc(o.syms[NatOf(e.sym) + 1], 8), IF o.rela THEN DSext(e.add, 8) ELSE DZero(8))
+  IN CASE rc.f = "V-S-A" -> DNeg(SA) [] rc.f = "S+A-P" -> DSub(SA, LEn(NatOf(e.off), 8)) [] OTHER -> SA
+RECURSIVE StackSum(_, _)
+StackSum(o, j) == IF j = 0 THEN DZero(8) ELSE DAdd(StackSum(o, j - 1), StackTerm(o, j))
+StackIsSum ==
+  (Mode = "stack" /\ Done) =>
+     LET w == FieldOf(obj, 1)[2]
+         raw == Slice(obj.data, StackOff + 1, w)
+         V == DTrunc(IF obj.le THEN raw ELSE Rev(raw), 8)
+     IN /\ st.err = "" /\ w > 0
+        /\ \A j \in 1..obj.group : FieldOf(obj, j) = <<StackOff, w>>
+        /\ Slice(st.buf, StackOff + 1, w) = Fix(W(DTrunc(DAdd(V, StackSum(obj, obj.group)), w)), w, obj.le)
+\* ... in whatever order the records of the group stand in the table; and the fold is not what independent application to the
+\* original bytes would give (the last record of the group alone): the dimension is visible
+StackOrderIrrelevant ==
+  (Mode = "stack" /\ Done) =>
+     LET g == obj.group
+         rev == [obj EXCEPT !.relocs = [j \in 1..Len(@) |-> IF j <= g THEN @[g + 1 - j] ELSE @[j]]]
+         lastonly == [obj EXCEPT !.relocs = SubSeq(@, g, Len(@))]
+     IN Apply(rev).buf = st.buf /\ Apply(lastonly).buf # st.buf
+\* every answer of the session machine is the declarative answer to its own call, whatever was called before: the table's
+\* denotation does not depend on the history of the object (and an iterator's items only on how far that iterator has come)
+SessionHistoryFree ==
+  (Mode = "sess" /\ st.out # <<>>) =>
+     LET i == Len(st.out)                    \* (the answers before the last one were compared in the states before this one)
+         r == st.out[i]
+         pos == Cardinality({j \in 1..(i - 1) : st.out[j].c = "next" /\ st.out[j].items # <<>>})
+         a == SessAnswer(obj, <<r.c, r.a>>, pos)
+     IN r.n = a.n /\ r.items = a.items
+\* the reader's count is the length of the denotation; a session object has at least one item and a well-formed image
+SessWellFormed ==
+  (Mode = "sess" /\ st.out = <<>>) =>
+     /\ OpCount(obj) = Len(SessView(obj)) /\ OpCount(obj) >= 1 /\ obj.n = OpCount(obj) /\ obj.tb = SessBytes(obj)
+     /\ ChunksDisjoint(SessImage(obj))
+     /\ (obj.kind = "dyn" => obj.tab \in obj.o.present)
 \* reader o writer = identity; the entry count is size / entry size
 DecodeRoundTrip ==
   (IsTable /\ Done) =>
@@ -710,18 +978,18 @@ AddressesStrictlyIncreasing ==
 RelrNoWrap == Mode \in {"relr", "relrset"} => ~st.wrapped
 \* one apply step changes nothing outside the field of the relocation it applies
 ApplyFrame ==
-  (Mode \in {"apply", "errors", "loads"} /\ phase = "read" /\ st'.k = st.k + 1) =>
+  (Mode \in {"apply", "errors", "loads", "secaddr", "stack"} /\ phase = "read" /\ st'.k = st.k + 1) =>
      LET f == FieldOf(obj, st.k) IN
      /\ Len(st'.buf) = Len(st.buf)
      /\ \A i \in 1..Len(st.buf) : (i <= f[1] \/ i > f[1] + f[2]) => st'.buf[i] = st.buf[i]
 ApplyTouchesOnlyField == [][ApplyFrame]_vars
 \* at the end every byte outside all fields is the original one
 ApplyRestUntouched ==
-  (Mode \in {"apply", "errors"} /\ Done) =>
+  (Mode \in {"apply", "errors", "secaddr", "stack"} /\ Done) =>
      LET touched == UNION {LET f == FieldOf(obj, j) IN (f[1] + 1)..(f[1] + f[2]) : j \in 1..(st.k - 1)}
      IN \A i \in 1..Len(obj.data) : i \notin touched => st.buf[i] = obj.data[i]
 \* the machine (one action per relocation, halting at the first refusal) computes the fold
-ApplyIsFold == (Mode \in {"apply", "errors"} /\ Done) => Apply(obj) = [buf |-> st.buf, err |-> st.err]
+ApplyIsFold == (Mode \in {"apply", "errors", "secaddr", "stack"} /\ Done) => Apply(obj) = [buf |-> st.buf, err |-> st.err]
 \* disjoint fields: each field holds the formula applied to the ORIGINAL content of that field
 FieldsDisjoint(o) ==
   LET fs == TLCEval([j \in 1..Len(o.relocs) |-> FieldOf(o, j)]) IN
@@ -737,7 +1005,7 @@ OutcomeDefined ==
      /\ (Mode = "errors" => st.err = obj.sub)
 \* well-formedness of what the writers produce: fields inside the section
 FieldsInside ==
-  ((Mode \in {"apply", "errors"} /\ Done) \/ Mode = "loads") =>
+  ((Mode \in {"apply", "errors"} /\ Done) \/ Mode \in {"loads", "secaddr", "stack"}) =>
      \A j \in 1..Len(obj.relocs) : LET f == FieldOf(obj, j) IN f[1] + (IF f[2] = 0 THEN 8 ELSE f[2]) <= Len(obj.data)
 
 \* the dynamic image: chunks disjoint, every table lies inside the PT_LOAD mapping, the section and the tags designate the same bytes
